@@ -553,6 +553,10 @@ namespace bluetoe {
         case details::att_opcodes::confirmation:
             handle_value_confirmation( input, in_size, output, out_size, connection );
             break;
+        // a client is not expected to send notifications; there is no response to a notification
+        case details::att_opcodes::notification:
+            out_size = 0;
+            break;
         default:
             error_response( *input, details::att_error_codes::request_not_supported, output, out_size );
             break;
